@@ -17,7 +17,7 @@ import (
 func init() {
 	Register(&Spec{
 		ID:          "C06",
-		Explanation: "Decides the structural skeleton of exactly-once, arrival-order RPC delivery: (R1) the seven message handlers are called only from Conn.receive, receive only from the goroutine NewConn starts, and the calls that deliver to the application (RecvCall, PipelineRecv) are direct calls in handleCall, not behind go/defer/closures; (R2) on every path of handleCall/handleBootstrap from the insertion of the answer to a nil return exactly one of sendException / sendReturn / hand-over as Returner happens, and answer.Return sends exactly one of sendReturn/sendException; (R3) every function receiving a capnp.Recv consumes its Returner exactly once on every path; (R4) a question id is released only after finishSent is established or on the failure branch of the message that introduced the question; (R5) an answer id is inserted only after the table was tested for that id; (R6) the handlers keep the lock discipline (a leaked sender lock stops all later Returns). (R9) a base of the answer queue is marked ready only after the calls queued on it were handed over (shared with C12-R5b). Does NOT decide ordering across promise resolution, correctness of results or embargo semantics.",
+		Explanation: "Decides the structural skeleton of exactly-once, arrival-order RPC delivery: (R1) the seven message handlers are called only from Conn.receive, receive only from the goroutine NewConn starts, and the calls that deliver to the application (RecvCall, PipelineRecv) are direct calls in handleCall, not behind go/defer/closures; (R2) on every path of handleCall/handleBootstrap from the insertion of the answer to a nil return exactly one of sendException / sendReturn / hand-over as Returner happens, and answer.Return sends exactly one of sendReturn/sendException; (R3) every function receiving a capnp.Recv consumes its Returner exactly once on every path; (R4) a question id is released only after finishSent is established or on the failure branch of the message that introduced the question; (R5) an answer id is inserted only after the table was tested for that id; (R6) the handlers keep the lock discipline (a leaked sender lock stops all later Returns). (R9) a base of the answer queue is marked ready only after the calls queued on it were handed over (shared with C12-R5b). (R10) every wake-up the receive loop waits for happens on every path, failure paths included (shared with C09-R8). Does NOT decide ordering across promise resolution, correctness of results or embargo semantics.",
 		Run:         runC06,
 	})
 }
@@ -46,6 +46,10 @@ func runC06(ctx *Ctx) {
 	// order: a base of the answer queue is marked ready only after the calls
 	// queued on it were handed over (shared with C12-R5b)
 	ruleQueueReady(ctx, "C06-R9")
+	// the single receive loop must not block for good on a wake-up that a
+	// failure path forgot: every later message would go unanswered (shared
+	// with C09-R8)
+	ruleWakeups(ctx, "C06-R10")
 	r := ctx.Rep
 	r.Floor("C06-R1", 10)
 	r.Floor("C06-R2", 6)
